@@ -25,7 +25,7 @@ func cat(parts ...[]byte) []byte {
 	}
 	return out
 }
-func i32const(v int32) []byte { return append([]byte{wasm.OpcodeI32Const}, leb128.EncodeInt32(v)...) }
+func i32const(v int32) []byte  { return append([]byte{wasm.OpcodeI32Const}, leb128.EncodeInt32(v)...) }
 func localGet(i uint32) []byte { return append([]byte{wasm.OpcodeLocalGet}, u32(i)...) }
 
 func modName(i int) string { return "m" + string(rune('0'+i)) }
